@@ -605,4 +605,219 @@ theorem decode16_encode16 (s : List Char) : decode16 (encode16 s) = s := by
       simp only [encode16, hu, List.cons_append, List.nil_append, decode16, hh, hl, Bool.and_self, if_true]
       rw [hn, Char.ofNat_toNat, ih]
 
+/-! ### Positions the server emits, read by the editor -/
+
+theorem splitsCrlf_tail (ch : Char) (pre' post : List Char) (h : splitsCrlf (ch :: pre') post = false) :
+    splitsCrlf pre' post = false := by
+  cases pre' with
+  | nil => simp [splitsCrlf]
+  | cons c cs => simpa [splitsCrlf, List.getLast?_cons_cons] using h
+
+/-- The first unit of a character is never a low surrogate, and is 10 only for `\n`. -/
+theorem head_encUnits (c : Char) :
+    ∃ u rest, encUnits c = u :: rest ∧ isLowSurrogate u = false ∧ (u = 10 → c = '\n') := by
+  have hv := char_valid c
+  by_cases hb : c.toNat < 0x10000
+  · exact ⟨c.toNat, [], by simp [encUnits, hb], by simp [isLowSurrogate]; omega, toNat_eq_lf⟩
+  · exact ⟨_, _, by simp [encUnits, hb]; exact ⟨rfl, rfl⟩, by simp [isLowSurrogate]; omega, by omega⟩
+
+theorem head_encode16_lf {s : List Char} (h : (encode16 s).head? = some 10) : s.head? = some '\n' := by
+  cases s with
+  | nil => simp [encode16] at h
+  | cons c cs =>
+    obtain ⟨u, rest, hu, _, h10⟩ := head_encUnits c
+    simp [encode16, hu] at h
+    simp [h10 h]
+
+theorem onBoundary_encode16 (pre post : List Char) :
+    Spec.onBoundary (encode16 (pre ++ post)) (len16 pre) = true := by
+  rw [encode16_append, Spec.onBoundary, ← length_encode16 pre,
+    List.getElem?_append_right (Nat.le_refl _), Nat.sub_self]
+  cases post with
+  | nil => simp [encode16]
+  | cons c cs =>
+    obtain ⟨u, rest, hu, hlow, _⟩ := head_encUnits c
+    simp [encode16, hu, hlow]
+
+theorem emit_aux :
+    ∀ (pre post : List Char) (i line col : Nat),
+      Spec.lfOrCrlf (encode16 (pre ++ post)) = true → splitsCrlf pre post = false →
+      ∃ L C, Impl.offsetToLineColAux (i + len8 pre) (pre ++ post) i line col =
+                (line + L, if L = 0 then col + C else C) ∧
+             Spec.offsetOf (encode16 (pre ++ post)) L C = some (len16 pre) := by
+  intro pre
+  induction pre with
+  | nil =>
+    intro post i line col _ _
+    refine ⟨0, 0, ?_, ?_⟩
+    · cases post <;> simp [Impl.offsetToLineColAux, len8]
+    · exact (Spec.offsetOf_zero _ _ _).2 ⟨Nat.zero_le _, by simp [len16]⟩
+  | cons ch pre' ih =>
+    intro post i line col hlf hsp
+    have hsp' := splitsCrlf_tail ch pre' post hsp
+    have hpos := utf8Len_pos ch
+    have hoff : i + len8 (ch :: pre') = (i + utf8Len ch) + len8 pre' := by simp [len8]; omega
+    by_cases hn : ch = '\n'
+    · subst hn
+      have hstep : Impl.offsetToLineColAux (i + len8 ('\n' :: pre')) ('\n' :: pre' ++ post) i line col =
+          Impl.offsetToLineColAux ((i + 1) + len8 pre') (pre' ++ post) (i + 1) (line + 1) 0 := by
+        rw [hoff]
+        simp only [List.cons_append, Impl.offsetToLineColAux, utf8Len_lf]
+        rw [if_neg (by omega)]
+        simp
+      simp only [List.cons_append, encode16, encUnits_lf, List.nil_append] at hlf ⊢
+      have hlf' : Spec.lfOrCrlf (encode16 (pre' ++ post)) = true := by simpa [Spec.lfOrCrlf] using hlf
+      obtain ⟨L', C', h1, h2⟩ := ih post (i + 1) (line + 1) 0 hlf' hsp'
+      refine ⟨L' + 1, C', ?_, ?_⟩
+      · rw [← List.cons_append, hstep, h1]
+        by_cases h0 : L' = 0 <;> simp [h0] <;> omega
+      · rw [Spec.offsetOf_succ_lf, h2]
+        simp [len16, utf16Len_lf]; omega
+    · by_cases hr : ch = '\r'
+      · subst hr
+        have hstep : Impl.offsetToLineColAux (i + len8 ('\r' :: pre')) ('\r' :: pre' ++ post) i line col =
+            Impl.offsetToLineColAux ((i + 1) + len8 pre') (pre' ++ post) (i + 1) line (col + 1) := by
+          rw [hoff]
+          simp only [List.cons_append, Impl.offsetToLineColAux, utf8Len_cr, utf16Len_cr]
+          rw [if_neg (by omega), if_neg (by decide)]
+        simp only [List.cons_append, encode16, encUnits_cr, List.nil_append] at hlf ⊢
+        have hboth : (encode16 (pre' ++ post)).head? = some 10 ∧
+            Spec.lfOrCrlf (encode16 (pre' ++ post)) = true := by simpa [Spec.lfOrCrlf] using hlf
+        obtain ⟨hh, hlf'⟩ := hboth
+        have hhead := head_encode16_lf hh
+        -- `pre'` is not empty: otherwise the offset would sit between `\r` and `\n`
+        cases hp : pre' with
+        | nil =>
+          subst hp
+          simp [splitsCrlf] at hsp
+          simp at hhead
+          exact absurd hhead hsp
+        | cons c' pre'' =>
+          rw [← hp]
+          obtain ⟨L', C', h1, h2⟩ := ih post (i + 1) line (col + 1) hlf' hsp'
+          have hc' : c' = '\n' := by simpa [hp] using hhead
+          have hX : ∃ X, encode16 (pre' ++ post) = 10 :: X := by
+            rw [hp, hc']; exact ⟨encode16 (pre'' ++ post), by simp [encode16, encUnits_lf]⟩
+          obtain ⟨X, hX⟩ := hX
+          have hlen : 1 ≤ len16 pre' := by rw [hp]; simp [len16]; have := utf16Len_pos c'; omega
+          cases L' with
+          | zero =>
+            rw [hX] at h2
+            have := (Spec.offsetOf_zero _ _ _).1 h2
+            rw [Spec.lineLen_cons_lf] at this
+            omega
+          | succ L'' =>
+            refine ⟨L'' + 1, C', ?_, ?_⟩
+            · rw [← List.cons_append, hstep, h1]; simp
+            · rw [hX, Spec.offsetOf_succ_lf] at h2
+              rw [hX, Spec.offsetOf_succ_crlf]
+              cases hq : Spec.offsetOf X L'' C' with
+              | none => simp [hq] at h2
+              | some q =>
+                simp [hq] at h2
+                simp [len16, utf16Len_cr]; omega
+      · have hstep : Impl.offsetToLineColAux (i + len8 (ch :: pre')) (ch :: pre' ++ post) i line col =
+            Impl.offsetToLineColAux ((i + utf8Len ch) + len8 pre') (pre' ++ post) (i + utf8Len ch) line
+              (col + utf16Len ch) := by
+          rw [hoff]
+          simp only [List.cons_append, Impl.offsetToLineColAux]
+          rw [if_neg (by omega), if_neg hn]
+        rcases encUnits_other ch hn hr with ⟨u, hu, hu10, hu13, h16⟩ | ⟨hi, lo, hu, hi10, hi13, lo10, lo13, _, h16⟩
+        · simp only [List.cons_append, encode16, hu, List.nil_append] at hlf ⊢
+          rw [lfOrCrlf_cons_ord _ hu13] at hlf
+          obtain ⟨L', C', h1, h2⟩ := ih post (i + utf8Len ch) line (col + utf16Len ch) hlf hsp'
+          cases L' with
+          | zero =>
+            refine ⟨0, C' + 1, ?_, ?_⟩
+            · rw [← List.cons_append, hstep, h1, h16]; simp; omega
+            · have := (Spec.offsetOf_zero _ _ _).1 h2
+              refine (Spec.offsetOf_zero _ _ _).2 ⟨?_, ?_⟩
+              · rw [Spec.lineLen_cons_ord _ hu10 hu13]; omega
+              · simp [len16, h16]; omega
+          | succ L'' =>
+            refine ⟨L'' + 1, C', ?_, ?_⟩
+            · rw [← List.cons_append, hstep, h1]; simp
+            · rw [Spec.offsetOf_succ_cons_ord _ _ _ hu10 hu13, h2]
+              simp [len16, h16]; omega
+        · simp only [List.cons_append, encode16, hu, List.nil_append] at hlf ⊢
+          rw [lfOrCrlf_cons_ord _ hi13, lfOrCrlf_cons_ord _ lo13] at hlf
+          obtain ⟨L', C', h1, h2⟩ := ih post (i + utf8Len ch) line (col + utf16Len ch) hlf hsp'
+          cases L' with
+          | zero =>
+            refine ⟨0, C' + 2, ?_, ?_⟩
+            · rw [← List.cons_append, hstep, h1, h16]; simp; omega
+            · have := (Spec.offsetOf_zero _ _ _).1 h2
+              refine (Spec.offsetOf_zero _ _ _).2 ⟨?_, ?_⟩
+              · rw [Spec.lineLen_cons_ord _ hi10 hi13, Spec.lineLen_cons_ord _ lo10 lo13]; omega
+              · simp [len16, h16]; omega
+          | succ L'' =>
+            refine ⟨L'' + 1, C', ?_, ?_⟩
+            · rw [← List.cons_append, hstep, h1]; simp
+            · rw [Spec.offsetOf_succ_cons_ord _ _ _ hi10 hi13,
+                Spec.offsetOf_succ_cons_ord _ _ _ lo10 lo13, h2]
+              simp [len16, h16]; omega
+
+/-! ### No slice panic, whatever the positions -/
+
+theorem positionToOffsetAux_boundary (pl pc : Nat) :
+    ∀ (s : List Char) (i line col o : Nat),
+      Impl.positionToOffsetAux pl pc s i line col = some o →
+      ∃ pre post, s = pre ++ post ∧ o = i + len8 pre := by
+  intro s
+  induction s with
+  | nil =>
+    intro i line col o h
+    simp only [Impl.positionToOffsetAux] at h
+    split at h
+    · exact ⟨[], [], rfl, by simp [len8] at *; omega⟩
+    · cases h
+  | cons c cs ih =>
+    intro i line col o h
+    simp only [Impl.positionToOffsetAux] at h
+    split at h
+    · exact ⟨[], c :: cs, rfl, by simp [len8] at *; omega⟩
+    · split at h
+      · split at h
+        · exact ⟨[], c :: cs, rfl, by simp [len8] at *; omega⟩
+        · obtain ⟨pre, post, h1, h2⟩ := ih _ _ _ _ h
+          exact ⟨c :: pre, post, by simp [h1], by simp [len8]; omega⟩
+      · obtain ⟨pre, post, h1, h2⟩ := ih _ _ _ _ h
+        exact ⟨c :: pre, post, by simp [h1], by simp [len8]; omega⟩
+
+theorem applyChange_no_panic (s : List Char) (c : Impl.Change) : Impl.applyChange s c ≠ .panic := by
+  cases c with
+  | full t => simp [Impl.applyChange]
+  | range sl sc el ec t =>
+    simp only [Impl.applyChange]
+    cases h1 : Impl.positionToOffset s sl sc with
+    | none => simp
+    | some a =>
+      cases h2 : Impl.positionToOffset s el ec with
+      | none => simp
+      | some b =>
+        obtain ⟨p1, q1, hs1, ha⟩ := positionToOffsetAux_boundary sl sc s 0 0 0 a h1
+        obtain ⟨p2, q2, hs2, hb⟩ := positionToOffsetAux_boundary el ec s 0 0 0 b h2
+        have ht : Impl.takeBytes a s = some p1 := by
+          rw [ha, Nat.zero_add]; conv => lhs; rw [hs1]
+          exact takeBytes_append _ _
+        have hd : Impl.dropBytes b s = some q2 := by
+          rw [hb, Nat.zero_add]; conv => lhs; rw [hs2]
+          exact dropBytes_append _ _
+        simp only [ht, hd]
+        split <;> simp
+
+theorem applyContentChanges_no_panic : ∀ (cs : List Impl.Change) (s : List Char),
+    Impl.applyContentChanges s cs ≠ .panic := by
+  intro cs
+  induction cs with
+  | nil => intro s; simp [Impl.applyContentChanges]
+  | cons c cs ih =>
+    intro s
+    simp only [Impl.applyContentChanges]
+    have := applyChange_no_panic s c
+    cases h : Impl.applyChange s c with
+    | ok s' => exact ih s'
+    | rejected => simp
+    | panic => exact absurd h this
+
 end TrustVerif.C14
